@@ -329,3 +329,66 @@ func zzH_C20_synknock() {
 		zzAssert(ok && k.DestinationPort == dport && k.SourceIP.Equal(zzPeerIP) && k.DestinationIP.Equal(zzMyIP), "the knock names the probed port and both addresses")
 	}
 }
+
+// C02/tcp-sequence: K frames of one connection (each a SYN, ACK, data, FIN|ACK or RST with
+// the sequence numbers a real client would use next), any order: the receive path must
+// neither panic nor block, and afterwards a connection attempt on another port is still
+// answered. (handleTCP runs in the receive loop: if it blocks, the listener is dead.)
+func zzH_C02_tcpseq() {
+	c, _ := zzCanary()
+	sport, dport := uint16(40000), uint16(8080)
+	isn := zzU32()
+	k := zzParam("K", 4)
+	zzTimers(0)
+	for i := 0; i < k; i++ {
+		st := c.stateTable.Get(zzPeerIP, zzMyIP, sport, dport)
+		seq, ack := isn, uint32(0)
+		if st != nil {
+			seq, ack = st.RecvNext, st.SendNext
+		} else if i > 0 {
+			// no connection state left: the table is as it was before the first frame,
+			// so longer sequences from here repeat shorter ones
+			break
+		}
+		var flags tcp.Flag
+		var payload []byte
+		switch zzLen(0, 4) {
+		case 0:
+			flags, seq = tcp.SYN, isn
+		case 1:
+			flags = tcp.ACK
+		case 2:
+			flags, payload = tcp.ACK|tcp.PSH, []byte("x")
+		case 3:
+			flags = tcp.FIN | tcp.ACK
+		case 4:
+			flags = tcp.RST
+		}
+		msg := zzPanicMsg(func() {
+			zzInject(c, zzSeg{sport: sport, dport: dport, seq: seq, ack: ack, flags: flags, window: 1000, payload: payload, peer: zzPeerIP})
+		})
+		zzAssertMsg(msg == "", "no TCP segment sequence crashes the receive path", msg)
+		zzFrames(c)
+	}
+	zzInject(c, zzSeg{sport: 40001, dport: 8081, seq: 7, flags: tcp.SYN, window: 1000, peer: zzPeerIP})
+	zzAssert(len(zzFrames(c)) == 1, "after any segment sequence a new connection attempt is still answered")
+}
+
+// C02/syn-ports: a connection attempt with any source and destination port (and any ISN)
+// must not crash the receive path, and is answered.
+func zzH_C02_synports() {
+	c, _ := zzCanary()
+	sport, dport, isn := zzU16(), zzU16(), zzU32()
+	zzAssume(zzAnd(sport != 22, dport != 22))
+	msg := zzPanicMsg(func() {
+		zzInject(c, zzSeg{sport: sport, dport: dport, seq: isn, flags: tcp.SYN, window: 1000, peer: zzPeerIP})
+	})
+	zzAssertMsg(msg == "", "a SYN from any port does not crash the listener", msg)
+	zzAssert(len(zzFrames(c)) == 1, "a SYN from any port is answered")
+}
+
+// stubs for the C02 sequence harness: checksum emission is not its subject (C14 covers it),
+// and a fixed server ISN / IP ID keeps the carry-fold loops in send concrete.
+func zzStubRandConst() uint32 { return 0x01020304 }
+
+func zzStubNoTCPChecksum(iph *ipv4.Header, data []byte) {}
